@@ -417,4 +417,52 @@ def _views_consistent(g):
             ex = g.edge_exists(a, b)
             if ex != ((a, b) in ty):
                 bad.append(f'edge_exists({a!r},{b!r}) disagrees with get_edges()')
+    bad += _alias_views(g, names, keys, ty)
+    return bad
+
+
+def _alias_views(g, names, keys, ty):
+    """the other public spellings of the same views: node-object variants, by-pair forms, indexing, emptiness, and the
+    per-node handles (inbound / outbound directed edges, source / sink tests)"""
+    bad = []
+    if g.is_empty() != (not names and not keys):
+        bad.append('is_empty() disagrees with nodes / edges')
+    if [n.identifier for n in g.nodes] != names or \
+            [(e.source.identifier, e.destination.identifier) for e in g.edges] != keys:
+        bad.append('the nodes / edges properties disagree with get_nodes() / get_edges()')
+    for n in names:
+        try:
+            node = g.get_node(n)
+            if node.identifier != n or node.get_identifier() != n or g[n] is not node:
+                bad.append(f'get_node({n!r}) / graph[{n!r}] do not return the node named {n!r}')
+            if sorted(x.identifier for x in g.get_parent_nodes(n)) != sorted(g.get_parents(n)):
+                bad.append(f'get_parent_nodes({n!r}) disagrees with get_parents')
+            if sorted(x.identifier for x in g.get_children_nodes(n)) != sorted(g.get_children(n)):
+                bad.append(f'get_children_nodes({n!r}) disagrees with get_children')
+            if sorted(x.identifier for x in g.get_neighbor_nodes(n)) != sorted(g.get_neighbors(n)):
+                bad.append(f'get_neighbor_nodes({n!r}) disagrees with get_neighbors')
+            inb = sorted((e.source.identifier, e.destination.identifier) for e in node.get_inbound_edges())
+            outb = sorted((e.source.identifier, e.destination.identifier) for e in node.get_outbound_edges())
+            if inb != sorted(k for k in keys if k[1] == n and ty[k] == '->'):
+                bad.append(f'node {n!r}: get_inbound_edges() are not the directed edges into it')
+            if outb != sorted(k for k in keys if k[0] == n and ty[k] == '->'):
+                bad.append(f'node {n!r}: get_outbound_edges() are not the directed edges out of it')
+            if node.count_inbound_edges() != len(inb) or node.count_outbound_edges() != len(outb) or \
+                    node.is_source_node() != (not inb) or node.is_sink_node() != (not outb):
+                bad.append(f'node {n!r}: edge counts / source / sink tests disagree with its directed edges')
+        except Exception as e:  # noqa: BLE001
+            bad.append(f'a node-level view of {n!r} raised {err_name(e)}')
+    for a in names[:6]:
+        for b in names[:6]:
+            try:
+                byp = g.is_edge_by_pair((a, b))
+                if byp != ((a, b) in ty):
+                    bad.append(f'is_edge_by_pair(({a!r},{b!r})) disagrees with get_edges()')
+                if byp:
+                    e = g.get_edge_by_pair((a, b))
+                    if e is not g.get_edge(a, b) or g[a, b] is not e or e.get_edge_pair() != (a, b) or \
+                            ety(e) != ty[(a, b)]:
+                        bad.append(f'get_edge_by_pair / graph[a, b] / get_edge disagree for ({a!r},{b!r})')
+            except Exception as e:  # noqa: BLE001
+                bad.append(f'a by-pair view of ({a!r},{b!r}) raised {err_name(e)}')
     return bad
